@@ -22,3 +22,23 @@ Theorem C16_history_permutation : forall f a b, Permutation.Permutation a b ->
   Permutation.Permutation (run_history f a) (run_history f b).
 Proof. exact history_permutation. Qed.
 Print Assumptions C16_history_permutation.
+
+(* a run in which every thread has finished holds, thread by thread, exactly the sequential results *)
+Theorem C16_finished_results : forall f css sched,
+  finished (exec f (map thread_init css) sched) ->
+  map t_done (exec f (map thread_init css) sched) = map (run_history f) css.
+Proof. exact finished_results. Qed.
+Print Assumptions C16_finished_results.
+
+(* progress: for every family of call lists some schedule lets every thread finish (the premises of
+   C16_schedule_independent are met for all inputs), and it ends in the sequential results *)
+Theorem C16_interleave_total : forall f css,
+  exists sched, finished (exec f (map thread_init css) sched) /\
+                map t_done (exec f (map thread_init css) sched) = map (run_history f) css.
+Proof. exact interleave_total. Qed.
+Print Assumptions C16_interleave_total.
+
+(* finality: once every thread has finished no further scheduling step changes any result *)
+Theorem C16_finished_stable : forall f extra ts, finished ts -> exec f ts extra = ts.
+Proof. exact finished_stable. Qed.
+Print Assumptions C16_finished_stable.
